@@ -107,3 +107,24 @@ pub fn route(a: &[String]) -> Value {
            "observed": {"backend_calls": o.calls, "status": o.status, "body": o.body.chars().take(300).collect::<String>(), "transport_error": o.transport_error},
            "replay_args": args})
 }
+
+/// meta <mode> <METHOD> <uri>: response metadata of a backend answer (C03): status override, extra header, backend error
+pub fn meta(a: &[String]) -> Value {
+    let mode = &a[0];
+    let o = call(&a[1], &a[2], &[], Vec::new(), mode);
+    let (ok, expected) = if let Some(code) = mode.strip_prefix("ok_status:") {
+        (o.status.to_string() == code, format!("status {code} (the backend's explicit override)"))
+    } else if let Some(h) = mode.strip_prefix("ok_header:") {
+        let (n, v) = h.split_once('=').unwrap();
+        (o.headers.iter().any(|(hn, hv)| hn == n && hv == v), format!("header {n}: {v} attached by the backend"))
+    } else if let Some(code) = mode.strip_prefix("err:") {
+        (o.body.contains(&format!("<Code>{code}</Code>")), format!("S3 error document with code {code}"))
+    } else {
+        (true, String::new())
+    };
+    let mut args = vec!["meta".to_owned()];
+    args.extend(a.iter().cloned());
+    json!({"violates": !ok || o.calls.len() != 1, "input": {"method": a[1], "uri": a[2], "backend_answer": mode}, "expected": expected,
+           "observed": {"status": o.status, "headers": o.headers, "body": o.body.chars().take(300).collect::<String>(), "backend_calls": o.calls, "transport_error": o.transport_error},
+           "replay_args": args})
+}
